@@ -1,1 +1,103 @@
-fn main(){}
+//! fakesat — a real SAT-solver executable that we control (SimChild compiled into a program).
+//! Reads DIMACS CNF on stdin, prints a competition-style reply on stdout.
+//! Options (no leading dashes, so that they pass through `--external-sat-solver-opt`):
+//!   policy=uniform|mintrue|maxtrue|biased   seed=<n>
+//!   fault=<kind>[@<k>]      inject the reply fault at the k-th invocation (needs counter=<file>), or always
+//!   counter=<file>          invocation counter shared by the processes of one query
+//!   comment-bytes=<n>       volume of `c` lines; before the verdict, or after with comments=after
+//!   comments=before|after   vsplit=<n>   banner-first   ignore-stdin   chunk=<n> (stdout write size)
+//!   log=<file>              append one line per invocation: validation result of the instance received
+#[path = "dpll.rs"]
+mod dpll;
+#[path = "prng.rs"]
+mod prng;
+#[path = "simchild.rs"]
+mod simchild;
+
+use dpll::Policy;
+use simchild::{ChildFault, ReplyPlan};
+use std::io::{Read, Write};
+
+fn main() {
+    let args: Vec<String> = std::env::args().skip(1).collect();
+    let get = |k: &str| args.iter().find_map(|a| a.strip_prefix(&format!("{}=", k)).map(|s| s.to_string()));
+    let has = |k: &str| args.iter().any(|a| a == k);
+    let policy = match get("policy").as_deref() {
+        Some("mintrue") => Policy::MinTrue,
+        Some("maxtrue") => Policy::MaxTrue,
+        Some("biased") => Policy::Biased,
+        _ => Policy::Uniform,
+    };
+    let seed: u64 = get("seed").and_then(|s| s.parse().ok()).unwrap_or(1);
+    let mut invocation = 1u64;
+    if let Some(f) = get("counter") {
+        let cur: u64 = std::fs::read_to_string(&f).ok().and_then(|s| s.trim().parse().ok()).unwrap_or(0);
+        invocation = cur + 1;
+        let _ = std::fs::write(&f, invocation.to_string());
+    }
+    let fault: Option<ChildFault> = get("fault").and_then(|s| {
+        let (name, at) = match s.split_once('@') {
+            Some((n, k)) => (n.to_string(), k.parse::<u64>().ok()),
+            None => (s.clone(), None),
+        };
+        match at {
+            Some(k) if k != invocation => None,
+            _ => ChildFault::from_name(&name),
+        }
+    });
+    let comment_bytes: usize = get("comment-bytes").and_then(|s| s.parse().ok()).unwrap_or(0);
+    let width = 64usize;
+    let lines = comment_bytes / width;
+    let after = get("comments").as_deref() == Some("after");
+    let plan = ReplyPlan {
+        comments_before: if after { 0 } else { lines },
+        comments_after: if after { lines } else { 0 },
+        comment_width: width,
+        v_split: get("vsplit").and_then(|s| s.parse().ok()).unwrap_or(0),
+        bare_lines: false,
+        zero_alone: false,
+    };
+    let stdout = std::io::stdout();
+    let mut out = stdout.lock();
+    let chunk: usize = get("chunk").and_then(|s| s.parse().ok()).unwrap_or(0);
+    let emit = |out: &mut dyn Write, bytes: &[u8]| -> bool {
+        let c = if chunk == 0 { bytes.len().max(1) } else { chunk };
+        for part in bytes.chunks(c) {
+            if out.write_all(part).is_err() || out.flush().is_err() {
+                return false;
+            }
+        }
+        true
+    };
+    let mut rng = prng::Rng::new(seed.wrapping_mul(0x9E3779B97F4A7C15) ^ invocation);
+    let mut plan_rest = plan;
+    if has("banner-first") {
+        let mut banner = String::new();
+        for k in 0..plan.comments_before {
+            banner.push_str("c ");
+            for i in 0..width - 2 {
+                banner.push((b'a' + ((i + k) % 26) as u8) as char);
+            }
+            banner.push('\n');
+        }
+        if !emit(&mut out, banner.as_bytes()) {
+            std::process::exit(141);
+        }
+        plan_rest.comments_before = 0;
+    }
+    let mut input = String::new();
+    if has("ignore-stdin") {
+        drop(std::io::stdin());
+        let _ = emit(&mut out, b"s UNSATISFIABLE\n");
+        std::process::exit(20);
+    }
+    let _ = std::io::stdin().read_to_string(&mut input);
+    let run = simchild::run(&input, policy, &mut rng, seed, &plan_rest, fault);
+    if let Some(f) = get("log") {
+        if let Ok(mut fh) = std::fs::OpenOptions::new().create(true).append(true).open(f) {
+            let _ = writeln!(fh, "invocation={} bytes={} errors={:?}", invocation, input.len(), run.dimacs_errors);
+        }
+    }
+    let _ = emit(&mut out, &run.stdout);
+    std::process::exit(run.exit_code);
+}
